@@ -68,7 +68,7 @@ def build_theories(jobs=16, timeout=3000):
     with BuildLock():
         regen_coqproject()
         ensure_makefile()
-        rc, out = sh(['make', '-j%d' % jobs, '-f', 'Makefile'], cwd=COQ, timeout=timeout)
+        rc, out = sh(['make', '-k', '-j%d' % jobs, '-f', 'Makefile'], cwd=COQ, timeout=timeout)
         return rc == 0, out
 
 
@@ -269,13 +269,24 @@ class Ctx:
         print('[%s %6.1fs]' % (self.prop, time.time() - self.t0), *a, flush=True)
 
     # ---- Coq
-    def build(self):
+    def build(self, modules=None):
+        """Build coq/theories. A failure in a theory file that this property's props file (and the
+        given extra modules) do not depend on is only noted."""
         ok, out = build_theories()
-        if not ok:
+        if ok:
+            return True
+        failed = set(re.findall(r'File "\./theories/([A-Za-z0-9_]+)\.v"', out))
+        failed |= set(re.findall(r'theories/([A-Za-z0-9_]+)\.vo?\]? Error', out))
+        need = theory_closure([os.path.join(COQ, 'props', self.prop + '.v')], modules or [])
+        hit = sorted(failed & need) if failed else sorted(need)
+        if hit:
             tail = out[-3000:]
-            self.log('theories build FAILED:\n' + tail)
-            self.broken.append({'kind': 'build', 'detail': tail})
-        return ok
+            self.log('theories build FAILED for %s:\n%s' % (hit, tail))
+            self.broken.append({'kind': 'build', 'files': hit, 'detail': tail})
+            return False
+        self.notes.append('unrelated theory files failed to build: %s' % sorted(failed))
+        self.log('note: unrelated theory files failed to build: %s' % sorted(failed))
+        return True
 
     def check_props(self, fname=None, extra_files=()):
         """Compile coq/props/<prop>.v from scratch; record theorems and Print Assumptions output.
@@ -446,6 +457,25 @@ class Ctx:
             self.evaluations, len(self._distinct), self.discharged, self.obligations,
             len(self.violations), len(self.known_hits), wall))
         return 1 if self.violations else 0
+
+
+def theory_closure(files, modules=()):
+    """Names of theories/*.v transitively required by the given .v files / module names."""
+    seen = set()
+    todo = []
+    for f in files:
+        if os.path.exists(f):
+            todo += re.findall(r'MPyC\.([A-Za-z0-9_]+)', open(f).read())
+    todo += [m.split('.')[-1] for m in modules]
+    while todo:
+        m = todo.pop()
+        if m in seen:
+            continue
+        seen.add(m)
+        f = os.path.join(COQ, 'theories', m + '.v')
+        if os.path.exists(f):
+            todo += re.findall(r'MPyC\.([A-Za-z0-9_]+)', open(f).read())
+    return seen
 
 
 def strip_comments(src):
